@@ -317,7 +317,22 @@ def rule_r4(p, res):
     r.check([norm(x) for x in dl.node.body if not (isinstance(x, ast.Expr) and isinstance(x.value, ast.Constant))] == ["del self._landmark_groups[%s]" % dl.params[1]], dl, dl.node, "deleting a group removes exactly that key")
     nd = p.own_method("LandmarkManager", "n_dims")
     s = norm(nd.node)
-    r.check("for v in self._landmark_groups.values()" in s and "return v.n_dims" in s and "return None" in s, nd, nd.node, "the manager's dimensionality is that of its groups (None when empty)")
+    # some return yields the n_dims of a stored group (loop variable over the values, or next(iter(values))), another None / nothing
+    rets_nd = returns_of(nd.node)
+    dnd = Defs(nd.node)
+    from_group = False
+    for rt in rets_nd:
+        v = rt.value
+        if isinstance(v, ast.Attribute) and v.attr == "n_dims":
+            base = v.value
+            if isinstance(base, ast.Name):
+                lp = [n_ for n_ in walk_own(nd.node) if isinstance(n_, ast.For) and norm(n_.target) == base.id and norm(n_.iter) in ("self._landmark_groups.values()", "self.values()")]
+                bd = dnd.single(base.id)
+                from_group = from_group or bool(lp) or (bd is not None and "self._landmark_groups" in norm(bd))
+            else:
+                from_group = from_group or "self._landmark_groups" in norm(base)
+    none_path = any(rt.value is None or (isinstance(rt.value, ast.Constant) and rt.value.value is None) for rt in rets_nd) or not isinstance(nd.node.body[-1], ast.Return)
+    r.check(from_group and none_path, nd, nd.node, "the manager's dimensionality is that of its groups (None when empty)")
 
 
 def rule_r5(p, res):
